@@ -32,6 +32,15 @@ crop_hw (centered-instance) / wandb run_id (tracking on); ``best.ckpt`` (and ``l
 ``save_last=True``) exist iff ``save_ckpt``; ``train_chunks``/``val_chunks`` are gone iff
 deletion was requested; the configuration embedded in every checkpoint has a blank key.
 
+Checkpoint options (joint axis of every part): ``trainer_config.model_ckpt.(save_top_k, save_last)`` is drawn with the
+other configuration axes from {(1, True) builder default, (0, True) "keep only the latest model", (-1, True) keep all,
+(1, None) best only, (2, False)}.  Clause (3) for a checkpointing-on run is the statement's: at least one ``*.ckpt``
+written by the run below its folder (every checkpoint found must load and embed a config with a blank key); in addition
+``best.ckpt`` iff documented (``save_top_k != 0``) and ``last.ckpt`` where ``save_last=True`` and a best model is saved.
+With ``save_top_k=0`` only "a checkpoint" is asserted.  (0, None/False) promises no checkpoint and is not drawn.  Which
+files a run wrote is recorded as class ``ckpt-opts=top_k=*,last=*|wrote=*``.  Run 2 of a resume history draws from the
+pairs with ``save_last=True`` only.  All crash-snapshot key scans apply to these runs as to any other.
+
 Key form (joint axis of every part): "literal" = the key is a string in the configuration; "env" = the
 configuration holds the reference ``${oc.env:C19_TRACKING_KEY}`` (plain: in the YAML; structured: set with
 ``OmegaConf.update``) and the real key lives in that environment variable only while the trainer runs.  The
@@ -82,7 +91,8 @@ LEVEL = "fault_enumeration"
 RULE = (
     "case = one training configuration drawn jointly from model type {single_instance, centroid, "
     "centered_instance, bottomup} x (data_pipeline_fw, delete_chunks_after_training, np_chunks_path) "
-    "{6 variants} x use_wandb x save_ckpt x config object {structured (builders + "
+    "{6 variants} x use_wandb x save_ckpt x checkpoint options (save_top_k, save_last) in {(1,True), (0,True), (-1,True), "
+    "(1,None), (2,False)} (checkpointing on; two inert pairs when off) x config object {structured (builders + "
     "TrainingJobConfig.to_sleap_nn_cfg), plain (YAML round trip)} x key form {literal, ${oc.env:...} reference with "
     "the real key in the environment during the run} + a 40-hex-char API key + kill points; "
     "each case runs the real ModelTrainer once with a crash snapshot (key search over all files below the "
@@ -123,6 +133,12 @@ ASSUMPTIONS = [
     "forms (a kept reference is reported in its own bucket api_key-not-blank:reference-kept, apart from the "
     "no-real-key clause)",
     "kill runs judge only the key clause (a dying process has no artifact contract)",
+    "checkpoint options: (save_top_k=0, save_last falsy) is not drawn - ModelCkptConfig documents 'If save_top_k == 0, no "
+    "models are saved' and nothing requests a last.ckpt, so no checkpoint is promised; for (0, True) only the statement's "
+    "'a checkpoint when checkpointing is on' is asserted (any *.ckpt written by the run), not its name; with save_last "
+    "falsy a last.ckpt is neither expected nor forbidden; versioned names (best-v1.ckpt, save_top_k=-1/2) are not judged; "
+    "run 1 of a resume history keeps the default options (its {last,best}.ckpt is what run 2 resumes from) and run 2 draws "
+    "only pairs with save_last=True (with run 1's best score restored a resumed run may rewrite no best.ckpt)",
     "chunk-reuse histories: a re-using run never opens the labels file, so skeletons / max_height,max_width / "
     "crop_hw of its final config are recorded as class labels (reuse:final-config-without-*) and not judged; in a "
     "directory shared by several runs (np_chunks_path=None) run 1 writes no checkpoint and only checkpoints written "
@@ -162,6 +178,28 @@ GRID = [
     for ck in (False, True)
     for form in ("structured", "plain")
 ]
+# checkpoint options (trainer_config.model_ckpt.save_top_k, .save_last): the builder's default first, then "keep only
+# the latest model" (no best checkpoint, last.ckpt only), "keep all models", "best only" (ModelCkptConfig's own
+# default save_last=None), "best two, no last".  (0, None/False) is left out: ModelCkptConfig's docstring says "If
+# save_top_k == 0, no models are saved" and nothing asks for a last.ckpt, so no checkpoint is promised there.
+CKPT_DEFAULT = (1, True)
+CKPT_OPTS = [CKPT_DEFAULT, (0, True), (-1, True), (1, None), (2, False)]
+# with save_ckpt=False the options are inert (no callback is built): two values only, so that the joint draw does not
+# starve the checkpointing-off half of the grid
+CKPT_OPTS_OFF = [CKPT_DEFAULT, (0, True)]
+# a resumed run (run 2 of a resume history) may find run 1's best score restored and then rewrites no best.ckpt: only
+# options with save_last=True promise that the resumed run itself writes a checkpoint
+CKPT_OPTS_RESUMED = [CKPT_DEFAULT, (0, True), (-1, True)]
+
+
+def _ckpt_opts(case):
+    """(save_top_k, save_last) of a run case; cases written before the axis existed carry the builder's default."""
+    o = case.get("ckpt_opts")
+    return (int(o[0]), o[1]) if o else CKPT_DEFAULT
+
+
+def _opts_label(opts):
+    return f"ckpt-opts=top_k={opts[0]},last={opts[1]}"
 
 
 class SimulatedKill(BaseException):
@@ -492,8 +530,8 @@ def build_config(case, out, chunks, indir):
         batch_size=1,
         shuffle_train=False,
         num_workers=0,
-        ckpt_save_top_k=1,
-        ckpt_save_last=True,
+        ckpt_save_top_k=_ckpt_opts(case)[0],
+        ckpt_save_last=_ckpt_opts(case)[1],
         trainer_num_devices=1,
         trainer_accelerator="cpu",
         enable_progress_bar=False,
@@ -1070,20 +1108,40 @@ def judge_artifacts(res, case, rep, reuse=False, resumed=False):
     if resumed:
         if ck and run == "completed":
             present = sorted(os.path.basename(r) for r in rep["ckpts"])
+            opts = _ckpt_opts(case)  # a resumed run draws options with save_last=True only (CKPT_OPTS_RESUMED)
+            osfx = "" if opts == CKPT_DEFAULT else ":" + _opts_label(opts)
             if not present:
-                res.fail("artifacts:ckpt-missing:any:save_ckpt=True", f"no checkpoint file in the output folder after a completed resumed run; config={lab}")
+                res.fail(f"artifacts:ckpt-missing:any:save_ckpt=True{osfx}", f"no checkpoint file in the output folder after a completed resumed run; config={lab}")
             elif not names:
                 res.fail(
-                    "artifacts:ckpt-not-written:save_ckpt=True",
-                    f"the resumed run trained with checkpointing on but wrote no checkpoint (folder holds {present} of the earlier run); config={lab}",
+                    f"artifacts:ckpt-not-written:save_ckpt=True{osfx}",
+                    f"the resumed run trained with checkpointing on (save_top_k={opts[0]}, save_last={opts[1]}) but wrote no "
+                    f"checkpoint (folder holds {present} of the earlier run); config={lab}",
                 )
-            res.cls("resume|run2-wrote=" + ("+".join(sorted(names)) or "nothing"))
+            res.cls("resume|run2-wrote=" + ("+".join(sorted(names)) or "nothing"), "resume|run2|" + _opts_label(opts) + "|wrote=" + ("+".join(sorted(names)) or "nothing"))
         elif not ck and names:
             res.fail("artifacts:ckpt-unexpected:save_ckpt=False", f"checkpoints {sorted(names)} written although save_ckpt=False; config={lab}")
     elif ck:
-        for want in ("best.ckpt", "last.ckpt"):
-            if want not in names and run == "completed":
-                res.fail(f"artifacts:ckpt-missing:{want}:save_ckpt=True", f"no {want} after a completed run (found {sorted(names)}); config={lab}")
+        # the statement: "a checkpoint when checkpointing is on" = at least one *.ckpt written by this run below its
+        # folder, whatever model_ckpt options are set (that it loads and embeds a config with a blank key is (3e));
+        # which files: best.ckpt is what save_top_k != 0 documents ("the best k models ... will be saved", file name
+        # "best"), last.ckpt what save_last=True documents ("saves a last.ckpt whenever a checkpoint file gets saved");
+        # with save_top_k=0 only the statement's "a checkpoint" is asserted, with save_last falsy no last.ckpt is
+        # expected and none is forbidden
+        opts = _ckpt_opts(case)
+        osfx = "" if opts == CKPT_DEFAULT else ":" + _opts_label(opts)  # default options keep their bucket names
+        if run == "completed":
+            res.cls(_opts_label(opts) + "|wrote=" + ("+".join(sorted(names)) or "nothing"))
+            if not names:
+                res.fail(
+                    f"artifacts:ckpt-missing:any:save_ckpt=True{osfx}",
+                    f"checkpointing is on (save_ckpt=True, save_top_k={opts[0]}, save_last={opts[1]}) but the completed run "
+                    f"wrote no *.ckpt below its folder (files: {[f for f in rep['files'] if f.startswith(rep['out_rel'] + '/')][:8]}); config={lab}",
+                )
+            wants = (["best.ckpt"] if opts[0] != 0 else []) + (["last.ckpt"] if opts[1] is True and opts[0] != 0 else [])
+            for want in wants:
+                if want not in names and (names or opts == CKPT_DEFAULT):
+                    res.fail(f"artifacts:ckpt-missing:{want}:save_ckpt=True{osfx}", f"no {want} after a completed run (found {sorted(names)}); config={lab}")
     elif names:
         res.fail("artifacts:ckpt-unexpected:save_ckpt=False", f"checkpoints {sorted(names)} written although save_ckpt=False; config={lab}")
     # (3e) embedded config of every checkpoint
@@ -1130,6 +1188,7 @@ def _label(case):
     return (
         f"{case['model']}|{case['fw']}|delete={case['delete']}|npp={case['npp']}|wandb={case['use_wandb']}"
         f"|ckpt={case['save_ckpt']}|{case['form']}|labels={case['labels']}|key={case.get('key_form', 'literal')}"
+        f"|{_opts_label(_ckpt_opts(case))}"
     )
 
 
@@ -1145,7 +1204,10 @@ def evaluate(case):
         f"fw={case['fw']}|delete={int(case['delete'])}|npp={case['npp']}",
         f"labels={case['labels']}",
         f"key={case.get('key_form', 'literal')}|wandb={int(case['use_wandb'])}|{case['form']}",
+        f"{_opts_label(_ckpt_opts(case))}|save_ckpt={int(case['save_ckpt'])}",
     )
+    if case["save_ckpt"]:
+        res.cls(_opts_label(_ckpt_opts(case)), f"{_opts_label(_ckpt_opts(case))}|{case['model']}")
     facts = _labels_facts(_labels_path(case["labels"]))
     assert case["key"] not in open(_labels_path(case["labels"]), "rb").read().decode("latin-1"), "key collides with labels file"
     del facts
@@ -1198,7 +1260,7 @@ def evaluate(case):
 def _hlabel(case):
     return (
         f"{case['model']}|npp={case['npp']}|delete2={case['delete2']}|third={case['third']}|wandb={case['use_wandb']}"
-        f"|ckpt={case['save_ckpt']}|{case['form']}|{'explicit' if case['explicit'] else 'defaults'}"
+        f"|ckpt={case['save_ckpt']}|{case['form']}|{'explicit' if case['explicit'] else 'defaults'}|{_opts_label(_ckpt_opts(case))}"
     )
 
 
@@ -1208,7 +1270,7 @@ def _history_runs(case):
     base = {
         "model": case["model"], "fw": "torch_dataset_np_chunks", "npp": case["npp"], "use_wandb": case["use_wandb"],
         "form": case["form"], "labels": case["labels"], "seed": case["seed"], "explicit": case["explicit"],
-        "key_form": case.get("key_form", "literal"),
+        "key_form": case.get("key_form", "literal"), "ckpt_opts": list(_ckpt_opts(case)),
     }
     # with a shared directory run 1 writes no checkpoint, so that run 2's best.ckpt/last.ckpt are its own
     runs = [dict(base, delete=False, use_existing=False, save_ckpt=case["save_ckpt"] and not shared, key=case["key"], out="out")]
@@ -1254,6 +1316,7 @@ def evaluate_history(case):
         f"reuse|keys={'same' if case['key'] == case['key2'] else 'different'}",
         f"reuse|key={case.get('key_form', 'literal')}|wandb={int(case['use_wandb'])}",
         f"reuse|runs={len(_history_runs(case))}",
+        f"reuse|{_opts_label(_ckpt_opts(case))}|save_ckpt={int(case['save_ckpt'])}",
     )
     n_evals = 0
     reps = _run_history(case)
@@ -1326,6 +1389,7 @@ def _rlabel(case):
         f"{case['model']}|{case['fw']}|folder2={case['folder2']}|from={case['from']}|change={case['change']}"
         f"|wandb={int(case['uw1'])}{int(case['uw2'])}|prv={int(case['prv'])}|ckpt2={case['ck2']}|{case['form']}"
         f"|key={case.get('key_form', 'literal')}|keys={'same' if case['key'] == case['key2'] else 'different'}"
+        f"|run2:{_opts_label(_ckpt_opts(case))}"
     )
 
 
@@ -1339,7 +1403,7 @@ def _resume_runs(case):
     r1 = dict(base, use_wandb=case["uw1"], save_ckpt=True, key=case["key"], out="out", max_epochs=1)
     r2 = dict(
         base, use_wandb=case["uw2"], save_ckpt=case["ck2"], key=case["key2"], out="out" if case["folder2"] == "same" else "out2",
-        max_epochs=2, lr=RESUME_LR if case["change"] == "epochs+lr" else None,
+        max_epochs=2, lr=RESUME_LR if case["change"] == "epochs+lr" else None, ckpt_opts=list(_ckpt_opts(case)),
     )
     return [r1, r2]
 
@@ -1380,6 +1444,7 @@ def evaluate_resume(case):
         f"resume|{folder}|keys={'same' if case['key'] == case['key2'] else 'different'}|key={case.get('key_form', 'literal')}",
         f"resume|from={case['from']}|change={case['change']}|fw={case['fw']}",
         f"resume|prv_runid={int(bool(case['prv'] and case['uw1'] and case['uw2']))}",
+        f"resume|run2|{_opts_label(_ckpt_opts(case))}|ckpt2={int(case['ck2'])}|{folder}",
     )
     n_evals = 0
     reps = _run_resume(case)
@@ -1449,7 +1514,7 @@ def _digits(key):
     return "71" + "".join(str(int(ch, 16) % 10) for ch in key[2:])
 
 
-def _case(cfg, key, seed, labels, kills, key_form="literal"):
+def _case(cfg, key, seed, labels, kills, key_form="literal", ckpt_opts=CKPT_DEFAULT):
     m, (fw, delete, npp), uw, ck, form = cfg
     if key_form == "digits" and not key.isdigit():
         key = _digits(key)
@@ -1461,6 +1526,7 @@ def _case(cfg, key, seed, labels, kills, key_form="literal"):
         "npp": npp,
         "use_wandb": uw,
         "save_ckpt": ck,
+        "ckpt_opts": list(ckpt_opts),
         "form": form,
         "labels": "one" if m == "single_instance" else labels,
         "key": key,
@@ -1481,19 +1547,22 @@ def grid_cases(tier):
         nc, ncs, ncf, ncfs = FW_VARIANTS[2], FW_VARIANTS[3], FW_VARIANTS[4], FW_VARIANTS[5]
         # key form: four literal, four env-referenced - tracking on + plain, tracking on + structured,
         # tracking off + plain (checkpointing on), tracking off + structured
+        # checkpoint options: the four checkpointing-on configurations carry four different (save_top_k, save_last)
+        # pairs - keep all / keep only the latest / the builder's default / best only; one checkpointing-off
+        # configuration carries a non-default pair too (inert there)
         picks = [
-            (("single_instance", td, False, True, "structured"), "literal"),
-            (("single_instance", ncs, True, False, "plain"), "env"),
-            (("centroid", nc, True, True, "structured"), "env"),
-            (("centroid", tdf, False, False, "plain"), "digits"),
-            (("centered_instance", ncf, False, True, "plain"), "env"),
-            (("centered_instance", ncs, True, False, "structured"), "literal"),
-            (("bottomup", ncfs, True, True, "plain"), "digits"),
-            (("bottomup", nc, False, False, "structured"), "env"),
+            (("single_instance", td, False, True, "structured"), "literal", (-1, True)),
+            (("single_instance", ncs, True, False, "plain"), "env", (0, True)),
+            (("centroid", nc, True, True, "structured"), "env", (0, True)),
+            (("centroid", tdf, False, False, "plain"), "digits", CKPT_DEFAULT),
+            (("centered_instance", ncf, False, True, "plain"), "env", CKPT_DEFAULT),
+            (("centered_instance", ncs, True, False, "structured"), "literal", CKPT_DEFAULT),
+            (("bottomup", ncfs, True, True, "plain"), "digits", (1, None)),
+            (("bottomup", nc, False, False, "structured"), "env", CKPT_DEFAULT),
         ]
-        for cfg, kf in picks:
+        for cfg, kf, opts in picks:
             i = GRID.index(cfg)
-            yield _case(cfg, _det_key(i), 1000 + i, "asset", [], kf)
+            yield _case(cfg, _det_key(i), 1000 + i, "asset", [], kf, opts)
     else:
         for i, cfg in enumerate(GRID):
             yield _case(cfg, _det_key(i), 1000 + i, "asset", "all", "literal")
@@ -1504,6 +1573,15 @@ def grid_cases(tier):
             if cfg[1] in (FW_VARIANTS[0], FW_VARIANTS[3]):
                 yield _case(cfg, _det_key(50_000 + i), 5000 + i, "asset", "all-alt" if j % 2 else "all-alt1", "env")
                 j += 1
+        # checkpoint options: every checkpointing-on configuration of model x {in-memory, np_chunks in a separate dir} x
+        # use_wandb x form with each non-default (save_top_k, save_last) pair; every boundary of the undisturbed run is
+        # a crash snapshot, plus one kill inside Trainer.fit (where the checkpoint files are written)
+        j = 0
+        for i, cfg in enumerate(GRID):
+            if cfg[3] and cfg[1] in (FW_VARIANTS[0], FW_VARIANTS[3]):
+                for opts in CKPT_OPTS[1:]:
+                    yield _case(cfg, _det_key(60_000 + j), 6000 + j, "asset", [[j, ("base", "kbd")[j % 2], "fit"]], KEY_FORMS[j % 3], opts)
+                    j += 1
 
 
 def strategy():
@@ -1512,7 +1590,10 @@ def strategy():
     @st.composite
     def case(draw):
         # ONE joint choice over all configuration axes, the key form included
-        cfg, key_form = draw(st.sampled_from([(g, kf) for g in GRID for kf in KEY_FORMS]))
+        # (checkpoint options included: five pairs where checkpointing is on, two where it is off and they are inert)
+        cfg, key_form, opts = draw(
+            st.sampled_from([(g, kf, o) for g in GRID for kf in KEY_FORMS for o in (CKPT_OPTS if g[3] else CKPT_OPTS_OFF)])
+        )
         tail = draw(st.text(alphabet="0123456789abcdef", min_size=38, max_size=38))
         key = "c1" + tail  # 40 hex characters; the fixed head keeps shrunk keys from degenerating to a common string
         # key_form "digits": _case maps the key to digits only (unquoted in a YAML file such a key is an integer)
@@ -1528,7 +1609,7 @@ def strategy():
                 max_size=2,
             )
         )
-        return _case(cfg, key, seed, labels, kills, key_form)
+        return _case(cfg, key, seed, labels, kills, key_form, opts)
 
     return case()
 
@@ -1545,13 +1626,14 @@ HGRID = [
 ]
 
 
-def _hcase(cfg, key, key2, seed, third, kills, key_form="literal"):
+def _hcase(cfg, key, key2, seed, third, kills, key_form="literal", ckpt_opts=CKPT_DEFAULT):
     m, npp, d2, form, uw, ck, ex = cfg
     if key_form == "digits":
         key, key2 = (k if k.isdigit() else ("7" + _digits(k)[1:] if k.startswith("c1") else "8" + _digits(k)[1:]) for k in (key, key2))
     return {
         "key_form": key_form,
         "model": m, "npp": npp, "delete2": d2, "form": form, "use_wandb": uw, "save_ckpt": ck, "explicit": ex,
+        "ckpt_opts": list(ckpt_opts),
         "third": bool(third), "labels": "one" if m == "single_instance" else "asset",
         "key": key, "key2": key2, "seed": seed, "kills": kills,
     }
@@ -1572,9 +1654,11 @@ def history_cases(tier):
             (("centroid", None, True, "plain", False, True, False), True, False),
             (("bottomup", None, False, "structured", True, False, False), False, True),
         ]
+        # checkpoint options of the three checkpointing-on histories: keep only the latest / keep all / best only
+        hopts = {0: (0, True), 2: (-1, True), 6: (1, None)}
         for i, (cfg, diffkeys, third) in enumerate(picks):
             k1 = _det_key(10_000 + i)
-            yield _hcase(cfg, k1, _det_key(20_000 + i) if diffkeys else k1, 2000 + i, third, [], "env" if i % 3 == 1 else "literal")
+            yield _hcase(cfg, k1, _det_key(20_000 + i) if diffkeys else k1, 2000 + i, third, [], "env" if i % 3 == 1 else "literal", hopts.get(i, CKPT_DEFAULT))
     else:
         # all (model x npp x delete2 x form) histories, for both classes; use_wandb / save_ckpt cycle jointly
         i = 0
@@ -1585,7 +1669,9 @@ def history_cases(tier):
                         for ex in (True, False):
                             uw, ck = [(False, True), (True, False), (True, True), (False, False)][i % 4]
                             k1 = _det_key(10_000 + i)
-                            yield _hcase((m, npp, d2, form, uw, ck, ex), k1, _det_key(20_000 + i) if i % 2 else k1, 2000 + i, not d2, "fit-all", "env" if (i // 4) % 2 else "literal")
+                            # checkpoint options cycle over the checkpointing-on histories (every 2nd; i // 2 counts them)
+                            opts = CKPT_OPTS[(i // 2) % len(CKPT_OPTS)] if ck else CKPT_DEFAULT
+                            yield _hcase((m, npp, d2, form, uw, ck, ex), k1, _det_key(20_000 + i) if i % 2 else k1, 2000 + i, not d2, "fit-all", "env" if (i // 4) % 2 else "literal", opts)
                             i += 1
 
 
@@ -1594,7 +1680,9 @@ def history_strategy():
 
     @st.composite
     def case(draw):
-        cfg, key_form = draw(st.sampled_from([(g, kf) for g in HGRID for kf in KEY_FORMS]))  # ONE joint choice
+        cfg, key_form, opts = draw(  # ONE joint choice, checkpoint options included (index 5 of a HGRID entry = save_ckpt)
+            st.sampled_from([(g, kf, o) for g in HGRID for kf in KEY_FORMS for o in (CKPT_OPTS if g[5] else CKPT_OPTS_OFF)])
+        )
         k1 = "c1" + draw(st.text(alphabet="0123456789abcdef", min_size=38, max_size=38))
         same = draw(st.booleans())
         k2 = k1 if same else "c2" + draw(st.text(alphabet="0123456789abcdef", min_size=38, max_size=38))
@@ -1604,7 +1692,7 @@ def history_strategy():
         kills = draw(
             st.lists(st.tuples(st.integers(0, 999), st.sampled_from(kinds)).map(lambda t: [t[0], t[1][0], t[1][1]]), min_size=0, max_size=1)
         )
-        return _hcase(cfg, k1, k2, seed, third, kills, key_form)
+        return _hcase(cfg, k1, k2, seed, third, kills, key_form, opts)
 
     return case()
 
@@ -1622,7 +1710,7 @@ RGRID = [
 RVARIANTS = [(frm, ch, prv) for frm in ("last", "best") for ch in ("epochs", "epochs+lr") for prv in (False, True)]
 
 
-def _rcase(cfg, variant, key, key2, seed, kills, key_form="literal"):
+def _rcase(cfg, variant, key, key2, seed, kills, key_form="literal", ckpt_opts=CKPT_DEFAULT):
     m, fw, f2, form, (uw1, uw2), ck2 = cfg
     frm, change, prv = variant
     if key_form == "digits":
@@ -1630,7 +1718,7 @@ def _rcase(cfg, variant, key, key2, seed, kills, key_form="literal"):
     return {
         "kind": "resume", "key_form": key_form,
         "model": m, "fw": fw, "folder2": f2, "form": form, "uw1": uw1, "uw2": uw2, "ck2": ck2,
-        "from": frm, "change": change, "prv": bool(prv),
+        "from": frm, "change": change, "prv": bool(prv), "ckpt_opts": list(ckpt_opts),  # run 2's options (run 1: default)
         "labels": "one" if m == "single_instance" else "asset",
         "key": key, "key2": key2, "seed": seed, "kills": kills,
     }
@@ -1647,9 +1735,12 @@ def resume_cases(tier):
             (("single_instance", "np_chunks", "fresh", "plain", (False, False), True), ("last", "epochs", False), True, "digits"),
             (("bottomup", "in_memory", "same", "structured", (True, True), True), ("last", "epochs+lr", True), True, "literal"),
         ]
+        # run 2's checkpoint options in the three histories with checkpointing on in run 2: keep only the latest (run
+        # 1's folder) / keep all (fresh folder) / default
+        ropts = {0: (0, True), 2: (-1, True)}
         for i, (cfg, var, diffkeys, kf) in enumerate(picks):
             k1 = _det_key(30_000 + i)
-            yield _rcase(cfg, var, k1, _det_key(40_000 + i) if diffkeys else k1, 3000 + i, [], kf)
+            yield _rcase(cfg, var, k1, _det_key(40_000 + i) if diffkeys else k1, 3000 + i, [], kf, ropts.get(i, CKPT_DEFAULT))
     else:
         # all (model x fw x folder2 x form x ck2) histories; tracking, variant, key form, same/different keys cycle
         i = 0
@@ -1662,7 +1753,8 @@ def resume_cases(tier):
                             var = RVARIANTS[(i // 2) % len(RVARIANTS)]
                             k1 = _det_key(30_000 + i)
                             kills = [[i, "base", "fit"], [i // 3, "kbd", "any"]]
-                            yield _rcase((m, fw, f2, form, uws, ck2), var, k1, _det_key(40_000 + i) if i % 2 else k1, 3000 + i, kills, KEY_FORMS[(i // 4) % 3])
+                            opts = CKPT_OPTS_RESUMED[(i // 2) % len(CKPT_OPTS_RESUMED)] if ck2 else CKPT_DEFAULT
+                            yield _rcase((m, fw, f2, form, uws, ck2), var, k1, _det_key(40_000 + i) if i % 2 else k1, 3000 + i, kills, KEY_FORMS[(i // 4) % 3], opts)
                             i += 1
 
 
@@ -1671,7 +1763,9 @@ def resume_strategy():
 
     @st.composite
     def case(draw):
-        cfg, key_form = draw(st.sampled_from([(g, kf) for g in RGRID for kf in KEY_FORMS]))  # ONE joint choice
+        cfg, key_form, opts = draw(  # ONE joint choice, run 2's checkpoint options included (index 5 of a RGRID entry = ck2)
+            st.sampled_from([(g, kf, o) for g in RGRID for kf in KEY_FORMS for o in (CKPT_OPTS_RESUMED if g[5] else CKPT_OPTS_OFF)])
+        )
         var = draw(st.sampled_from(RVARIANTS))
         k1 = "c1" + draw(st.text(alphabet="0123456789abcdef", min_size=38, max_size=38))
         same = draw(st.booleans())
@@ -1681,7 +1775,7 @@ def resume_strategy():
         kills = draw(
             st.lists(st.tuples(st.integers(0, 999), st.sampled_from(kinds)).map(lambda t: [t[0], t[1][0], t[1][1]]), min_size=0, max_size=1)
         )
-        return _rcase(cfg, var, k1, k2, seed, kills, key_form)
+        return _rcase(cfg, var, k1, k2, seed, kills, key_form, opts)
 
     return case()
 
